@@ -473,6 +473,29 @@ func runExtension(scratch, astool, instrumented string, idx int, v ExtVocab, che
 			if len(keys) > 0 {
 				first = keys[0]
 			}
+			if v.Label == "typeless-child" && c == "C01" {
+				// the recorded finding is "embedded objects are read as the typeless type, so the re-encoded
+				// @context names the extension": every failing class must be an @context mismatch and nothing
+				// else (the list of classes itself grows with the C01 driver and is not part of the key)
+				onlyCtx := len(keys) > 0
+				var other []string
+				for _, k := range keys {
+					if !strings.HasPrefix(k, "not-json-equal|") || !strings.HasSuffix(k, "|@context") {
+						onlyCtx = false
+						other = append(other, k)
+					}
+				}
+				key := "extension|typeless-child|C01-fails|@context-clause-only"
+				if !onlyCtx {
+					sort.Strings(other)
+					h := sha256.Sum256([]byte(strings.Join(other, "\n")))
+					key = fmt.Sprintf("extension|typeless-child|C01-fails|beyond-@context|%d|%s", len(other), hex.EncodeToString(h[:5]))
+				}
+				viols = append(viols, report.Violation{Key: key,
+					What:   fmt.Sprintf("extension vocabulary %s: the C01 driver reports %d failing classes: %v", v.Label, len(keys), keys),
+					Replay: rep})
+				continue
+			}
 			if v.Label == "name-clash" || v.Label == "typeless-child" {
 				// judged by the exact set of wrong predicate cells
 				sort.Strings(keys)
